@@ -78,11 +78,11 @@ func init() {
 		for _, jwt := range []bool{false, true} {
 			p := Profile{JWTAccess: jwt, RTLifespan: 7200}
 			specs = append(specs, FamSpec{Prop: "C08", Profile: p, Depth: depth, MaxGrants: 2, Grants: grants,
-				RedeemBy: []string{"owner"}, RefreshBy: []string{"owner"}, RevokeBy: []string{"owner", "other", "casevariant", "badsecret"}, Hints: []string{"", "access_token", "refresh_token", "garbage", "id_token", "authorize_code"},
+				RedeemBy: []string{"owner"}, RefreshBy: []string{"owner"}, RevokeBy: []string{"owner", "other", "casevariant", "badsecret", "owner-forged"}, Hints: []string{"", "access_token", "refresh_token", "garbage", "id_token", "authorize_code"},
 				Advances: []int{3700}})
 		}
 		r.Bounds = map[string]any{"history_depth": depth, "max_grants": 2, "strategies": []string{"hmac", "jwt"},
-			"alphabet": "grant(code A, hybrid code+token A, password A, code P) redeem(owner) refresh(owner) revoke(every token ever seen x caller owner|other|badsecret x hint none|access_token|refresh_token|garbage|id_token|authorize_code) advance(3700s)"}
+			"alphabet": "grant(code A, hybrid code+token A, password A, code P) redeem(owner) refresh(owner) revoke(every token ever seen x caller owner|other|case-variant|badsecret|owner presenting a forged string with the token's signature part x hint none|access_token|refresh_token|garbage|id_token|authorize_code) advance(3700s)"}
 		r.Rule = "explicit-state BFS over API histories; revocation is attempted on tokens in every liveness state (live, rotated, revoked, killed, expired) reached by the search; each transition is followed by introspection of every token and, where the statement says 'changes nothing', by equality of the complete store dump"
 		r.Assumptions = []string{"model: owner revocation of a live token kills it and the token issued alongside it; other tokens of the same grant are not pinned (adopted from introspection); foreign client => unauthorized_client and unchanged store; failed client authentication => unchanged store; already-invalid tokens => success and unchanged store"}
 		famSearch(r, specs)
